@@ -235,7 +235,7 @@ func algoOptCount(a string) int {
 	case "householderTridiagonalization", "adam", "blahut":
 		return 2
 	case "saga":
-		return 5
+		return 8
 	}
 	return 1
 }
@@ -318,6 +318,8 @@ func runAlgo(cs ACase) (fails []failure, outcome string) {
 	}
 	var err error
 	na := false
+	var optObj interface{ GetLambda() float64 }
+	optChanged := ""
 	perr := try(func() {
 		switch cs.Algo {
 		case "matrixInverse":
@@ -409,9 +411,29 @@ func runAlgo(cs ACase) (fails []failure, outcome string) {
 			case 3:
 				args = append(args, saga.L2Regularization{Value: 0.125})
 			case 4:
-				args = append(args, saga.JitUpdate{Value: &saga.JitUpdateL1{Lambda: 0.125}})
+				optObj = &saga.JitUpdateL1{Lambda: 0.125}
+				args = append(args, saga.JitUpdate{Value: optObj.(saga.JitUpdateType)})
+			case 5:
+				optObj = &saga.ProximalOperatorL1{Lambda: 0.125}
+				args = append(args, saga.ProximalOperator{Value: optObj.(saga.ProximalOperatorType)})
+			case 6:
+				optObj = &saga.ProximalOperatorL2{Lambda: 0.125}
+				args = append(args, saga.ProximalOperator{Value: optObj.(saga.ProximalOperatorType)})
+			case 7:
+				optObj = &saga.ProximalOperatorTi{Lambda: 0.125}
+				args = append(args, saga.ProximalOperator{Value: optObj.(saga.ProximalOperatorType)})
 			}
-			_, _, err = saga.Run(sagaObjective(cs.Opt), len(sagaData), in.(ad.Vector), args...)
+			variant := cs.Opt
+			if variant > 4 {
+				variant -= 5 // dense 1, dense 2, sparse 1 objectives for the explicit proximal operators
+			}
+			_, _, err = saga.Run(sagaObjective(variant), len(sagaData), in.(ad.Vector), args...)
+			if optObj != nil {
+				// the caller's regularisation object is an input object of the call as well
+				if l := optObj.GetLambda(); l != 0.125 {
+					optChanged = fmt.Sprintf("Lambda 0.125 before the call, %v after", l)
+				}
+			}
 		case "adam":
 			if cs.Opt == 0 {
 				_, err = adam.Run(objective, in.(ad.Vector), adam.MaxIterations{Value: 30}, adam.StepSize{Value: 0.05})
@@ -427,6 +449,9 @@ func runAlgo(cs ACase) (fails []failure, outcome string) {
 	})
 	if na {
 		return nil, "n/a"
+	}
+	if optChanged != "" {
+		return []failure{{fmt.Sprintf("algo-input|%s|option-object", cs.Algo), fmt.Sprintf("%s (option set %d, %s) changed the option object the caller passed: %s", cs.Algo, cs.Opt, cs.Typ, optChanged)}}, "fail"
 	}
 	for i, x := range extra {
 		if s := obs(x, true); s != bx[i] {
